@@ -79,6 +79,7 @@ func verifH_C30_addrconn_reconnect() {
 //verif:entry verifH_C30_addrconn_race thorough preempt=2
 func verifH_C30_addrconn_race() {
 	verifRaceC30 = true
+	verifSimultaneousTimers(true) // the shutdown and the end of the backoff are due at the same instant and wake their goroutines together
 	verifH_C30_addrconn()
 }
 
